@@ -263,3 +263,7 @@ def run(ctx: Ctx, rep: Report, tier: str):
     refresh_stamp_after_fetch(ctx, rep, "C10.T8")
     alias(rep, ["C07.R6"], "C10.T9", "a download interrupted by a transient failure leaves nothing under the final temp name (bytes go to a '.tmp' sibling, published by "
           "rename after provider.download returned - C07.R6): the retry downloads again instead of uploading a truncated file", 2, lambda: C07(ctx, rep).r6())
+    from rules.common import first_init_completes_before_flag
+    rep.rule("C10.T10", "a transient fault in the first intake step after a restart is retried in full: _do_first_init clears its flag only after the cursor "
+             "restore succeeded (C06.R9)", 1)
+    first_init_completes_before_flag(ctx, rep, "C10.T10")
